@@ -1,6 +1,6 @@
 (* Unimock.Props.C01 -- property theorems only.  Statements are written out in
    full here so that they cannot be weakened silently; each proof is [exact]. *)
-From Unimock Require Import Model.Run Spec.FirstMatch Proofs.Core Proofs.C01.
+From Unimock Require Import Model.Run Spec.FirstMatch Proofs.Core Proofs.C01 Proofs.Trace.
 Open Scope N_scope.
 
 Section Statements.
@@ -94,6 +94,15 @@ Proof. exact first_match_spec. Qed.
 
 (* non-vacuity: a concrete configuration with two overlapping patterns meets
    the hypotheses, and the second pattern is selected for argument 0 *)
+(* rejecting and later patterns "never influence the answer" also in the sense that user code in them does not run: the call
+   consults the matcher functions of its method from the first declared pattern up to and including the answering one, each
+   once, and none after it ([matcher_trace]: the harness logs every matcher invocation of the real runtime) *)
+Theorem C01_later_patterns_are_not_consulted : forall cfg s m a mk i p,
+  lookup m (c_table cfg) = Some mk -> m_mode mk = InAnyOrder ->
+  scan N haccepts a (m_pats mk) 0 = Some (i, p, Some true) ->
+  matcher_trace cfg s m a = map (fun q => (pat_id q, false)) (firstn (S i) (m_pats mk)).
+Proof. exact trace_stops_at_the_answering_pattern. Qed.
+
 Example C01_nonvacuous :
   exists cfg mk, assemble hinfo cfg_std FbError
       [TCall 0 EachCall (Pt (Some 6) (Some 1) [OReturns 10]);
